@@ -24,7 +24,7 @@ notown = [n for n, r in res.items() if r.get("detected_by") and not r.get("detec
 lines.append(f"Seeds detected by at least one check: {sum(1 for r in res.values() if r.get('detected_by'))} of {len(res)}; by the check of their own property: {sum(1 for r in res.values() if r.get('detected_by_own_property'))}. Missed: {', '.join(missed) or 'none'}. Detected only by another property's check: {', '.join(notown) or 'none'}.\n")
 lines.append("Checks were strengthened where a seed was missed when it first arrived (all were then re-run on the unchanged tree and on the behaviour-preserving controls): C10-1 → the recorded `pendingConfIndex` must be `lastIndex()+i+1` for the position `i` actually read; C02-2/C04-1 → `hasUnappliedConfChanges` may answer `false` without scanning only under `applied >= committed` (and the campaign gate joined C02/C04); C08-2/C01-1/C03-1/C18-1 → the storage part of `raftLog.slice` must be complete (`len >= cut-lo`) before the unstable part follows (rule C18.V, shared by C01/C03/C08/C16/C18); C06-1 → the routing group joined C06; C09-1 → the snapshot-clear rule joined C09; C19-2 → `maps.Keys/Values/All` are order sources unless consumed by `slices.Sorted*`; C17-2 → `RecentActive = true` only in the `MsgAppResp`/`MsgHeartbeatResp` arms; C15-1/C15-2 → `appliedSnap` reachable from the lower-term arm too, and `raftLog.appliedTo(…, size)` on every path of `raft.appliedTo`; C16-1/C16-2 → exits from `StateSnapshot` only on `MsgSnapStatus`/acknowledging `MsgAppResp`, and the configured inflight limits must reach every `NewInflights`/`MakeProgressTracker`; C20-1 → only entries whose own type is a conf change are neutralised; C14-1/C14-2 → `promotable()` excludes a pending snapshot (D7) and the index passed to `raftLog.appliedTo` is clamped (D8).\n")
 lines.append("Second round (`Cxx-3..5`, 58 seeds; the agents were additionally told which functions the first round had used, and asked for different mechanisms): first-time misses and what was added — C07-4 (a restarted learner forgets its vote) → `loadState` restores term, vote and commit on every returning path; C03-3 (`MemoryStorage.ApplySnapshot` keeps the tail) → C18.P; C06-5 (`switchToConfig` commits `trk.Committed()` directly) → C06.X closed set of commit sources; C05-5 (`newStorageAppendMsg` tests the wrong snapshot) → C05.E carried-fields rule; C02-4 (own `MsgVoteResp` passes the term gate) → C07.G term gate; C18-5 (`ApplySnapshot` accepts the same index again) → exact `ErrSnapOutOfDate` boundary; C15-3 (`appliedTo` returns early without releasing the budget) → C15.B; C15-4 (`needStorageAppendMsg` forgets delayed messages) → C15.W/C05.W formula; C16-5 (`checkAndCopy` gives every copy a fresh window) → window creation sites; C20-4 (`Node` reports a handed-over proposal as dropped) → channel hand-off counts in C20.D. Seeds caught only under a neighbouring property led to the shared-group additions listed in §11.\n")
-lines.append("**Behaviour-preserving refactorings.** Eight further sub-agents (two rounds of four, each given only a worktree and a list of files) wrote 96 refactorings that change no behaviour (helper extraction, inverted conditions, switch/if conversions, loop forms, hoisted getters, builtin `min`/`max` vs compare-select, merged or split functions), each passing the whole suite. `tools/run_patches.py` runs every property's rules on each. False alarms found and repaired in the first round (12 of 48): nil test of an extracted decoding helper; response-type selection as default-plus-override; forwarding helper; `Match` chosen before the `Progress` literal; hand-written `min` for the heartbeat commit; saturating subtract via `min`; `stepsOnAdvance` collection in a helper; range guard as a named boolean; `nextCommittedEnts` guarded by `hasNextCommittedEnts`; `truncateAndAppend` arms in helpers; `Restore` closures from a helper; `allowUnstable` passed through. See §11 for the engine changes each one led to; the second round's results are in the table below.\n")
+lines.append("**Behaviour-preserving refactorings.** Eight further sub-agents (two rounds of four, each given only a worktree and a list of files) wrote 96 refactorings that change no behaviour (helper extraction, inverted conditions, switch/if conversions, loop forms, hoisted getters, builtin `min`/`max` vs compare-select, merged or split functions), each passing the whole suite. `tools/run_patches.py` runs every property's rules on each. False alarms found and repaired in the first round (12 of 48): nil test of an extracted decoding helper; response-type selection as default-plus-override; forwarding helper; `Match` chosen before the `Progress` literal; hand-written `min` for the heartbeat commit; saturating subtract via `min`; `stepsOnAdvance` collection in a helper; range guard as a named boolean; `nextCommittedEnts` guarded by `hasNextCommittedEnts`; `truncateAndAppend` arms in helpers; `Restore` closures from a helper; `allowUnstable` passed through. Second round (9 of 48): a helper returning the delayed-message queue; `recvAck` with a hand-written `max`; the snapshot's `entryID` built once and its `.index` reused; one snapshot reply whose index is chosen in the two branches; the clone loop stamping a local element before storing it; `BecomeProbe` factored out of both `MsgSnapStatus` outcomes; the three leader-message arms of `stepFollower` merged into one case; a `sendReadIndexResponse` wrapper; `symdiff` as two calls of a counting helper. See §11 for the engine changes each one led to. All 96 are kept in `/verif/refactorings/` and must stay `ALL-PASS` under `tools/run_patches.py`.\n")
 lines.append("**(b) Neutralisers** (`checker/audit/mutants.json`, written by me while building each rule, run by the thorough tier as in-memory overlays and by `tools/mutate.py` on scratch copies): " + str(len(muts)) + " textual edits, each removing or weakening exactly one guarded fact. `expect` lists the properties whose check must fire; `silent` lists properties that must stay quiet on a behaviour-preserving variant.\n")
 lines.append("| neutraliser | file | must be detected by | must stay silent for |")
 lines.append("|-------------|------|---------------------|----------------------|")
